@@ -15,7 +15,9 @@
    result:  mr (radixes of the returned circuit), pi, pf (returned initial / final mapping: physical qudit of logical
             qudit q at position q+1), bs (the logical basis states that were fed in), obs (for each of them, in the same
             order: [idx |-> physical basis state the returned circuit sends it to, ph |-> phase class relative to the
-            first one, within |-> the column is within the synthesis budget of that basis vector]), obs_ok (FALSE if the
+            first one, dev |-> 2-norm distance of the column from that basis vector with that phase, in units of 1e-6]),
+            tol (the distance budget derived from synthesis_epsilon and the size of the output, same unit; at most 0.05
+            while two different members of the exact domain are at least 0.13 apart), obs_ok (FALSE if the
             harness could not embed: the mapping clauses then say why), meas_out (sequence of <<physical qudit,
             register, bit>> of the measurement placeholders of the returned circuit), cregs_out.
 
@@ -66,7 +68,7 @@ Same(it, res) ==
          g == NormPh(res.obs[1].ph - e[1].ph)                                  \* the one free global phase
      IN \A k \in 1..Len(res.bs) :
           LET pd == Digits(res.obs[k].idx, res.mr) IN
-          /\ res.obs[k].within
+          /\ res.obs[k].dev <= res.tol                                         \* within the distance budget
           /\ OthersZero(pd, res.pf)
           /\ Index(ReadBack(pd, res.pf), it.r) = e[k].idx
           /\ NormPh(res.obs[k].ph - e[k].ph - g) = 0
